@@ -568,6 +568,10 @@ package gohlslib
 //@   atcall muxerSegmentMPEGTS.initialize ids(s)
 //@   atcall muxerSegmentMPEGTS.initialize partsOK(s)
 //@   atcall muxerSegmentMPEGTS.initialize shape(s)
+//@   reachable result == nil && s.variant == MuxerVariantMPEGTS
+//@   reachable result == nil && s.variant == MuxerVariantFMP4
+//@   reachable result == nil && s.variant == MuxerVariantLowLatency && s.segmentDeleteCount == old(s.segmentDeleteCount) + 1
+//@   reachable result == nil && s.variant == MuxerVariantLowLatency && len(s.segments) == 8
 //@ end
 
 
@@ -719,3 +723,126 @@ package gohlslib
 //@   timestampToDuration(sample.dts, track.ClockRate) - ite(openAtEntry == nil, timestampToDuration(held.dts, track.ClockRate), old(asF(openAtEntry).startDTS))
 //@ pred partElapsed(s *muxerSegmenter, track *muxerTrack, sample *fmp4AugmentedSample, held *fmp4AugmentedSample, openAtEntry muxerSegment, partAtEntry *muxerPart) time.Duration :=
 //@   timestampToDuration(sample.dts, track.ClockRate) - ite(openAtEntry == nil, timestampToDuration(held.dts, track.ClockRate), old(partAtEntry.startDTS))
+
+// ---------------------------------------------------------------------------------------
+// T3: assumed contracts on dependencies (mediacommon). Never verified; listed in every evidence file
+// that uses them.
+
+//@ func ext:fmp4.PartSample.FillH264
+//@   modifies ps.Duration, ps.PTSOffset, ps.IsNonSyncSample, ps.Payload
+//@   ensures result == nil ==> ps.PTSOffset == ptsOffset
+//@ end
+
+//@ func ext:fmp4.PartSample.FillH265
+//@   modifies ps.Duration, ps.PTSOffset, ps.IsNonSyncSample, ps.Payload
+//@   ensures result == nil ==> ps.PTSOffset == ptsOffset
+//@ end
+
+//@ func ext:fmp4.PartSample.FillAV1
+//@   modifies ps.Duration, ps.PTSOffset, ps.IsNonSyncSample, ps.Payload
+//@   ensures result == nil ==> ps.PTSOffset == 0
+//@ end
+
+//@ func ext:vp9.Header.Unmarshal
+//@   modifies h.NonKeyFrame, h.ColorConfig, h.Profile, h.ShowExistingFrame, h.FrameToShowMapIdx, h.ShowFrame, h.ErrorResilientMode, h.FrameSize
+//@   ensures (result == nil && !h.NonKeyFrame) ==> h.ColorConfig != nil
+//@ end
+
+//@ func ext:h264.DTSExtractor.Extract
+//@   ensures result1 == nil ==> result0 <= pts
+//@ end
+
+//@ func ext:h265.DTSExtractor.Extract
+//@   ensures result1 == nil ==> result0 <= pts
+//@ end
+
+// ---------------------------------------------------------------------------------------
+// C01 / C02: the Write* front ends (fMP4 variants)
+
+// preconditions of the fMP4 path shared by every front end
+//@ pred fmp4Pre(s *muxerSegmenter, track *muxerTrack) := nolocks() && trackOK(track) && parentOK(s, track) && s.variant == track.stream.variant
+//@   && (s.variant == MuxerVariantLowLatency ==> (s.fmp4SampleDurations != nil && s.partMinDuration >= 0 && forall(k, has(s.fmp4SampleDurations, k) ==> k > 0)))
+
+//@ func muxerSegmenter.writeH264
+//@   props C01 C02
+//@   role writer
+//@   nocallpre
+//@   requires s.variant != MuxerVariantMPEGTS && fmp4Pre(s, track) && is(track.Codec, *codecs.H264) && ref(track.Codec) != 0
+//@   requires forall(i, (0 <= i && i < len(au)) ==> len(au[i]) >= 1)
+//@   requires track.firstRandomAccessReceived ==> track.h264DTSExtractor != nil
+//@   modifies *
+//@   ensures (!old(track.firstRandomAccessReceived) && !exists(i, 0 <= i && i < len(au) && mod(au[i][0], 32) == 5)) ==>
+//@        (result == nil && calls("muxerSegmenter.fmp4WriteSample") == 0 && !track.firstRandomAccessReceived)
+//@   ensures calls("muxerSegmenter.fmp4WriteSample") <= 1
+//@   ensures calls("muxerSegmenter.fmp4WriteSample") == 1 ==> (callarg("muxerSegmenter.fmp4WriteSample", 0, 1) == track
+//@        && (callarg("muxerSegmenter.fmp4WriteSample", 0, 2) == 1) == exists(i, 0 <= i && i < len(au) && mod(au[i][0], 32) == 5))
+//@   ensures calls("muxerSegmenter.fmp4WriteSample") == 1 ==> (callarg("muxerSegmenter.fmp4WriteSample", 0, 3) == 1) ==>
+//@        (callarg("muxerSegmenter.fmp4WriteSample", 0, 2) == 1 && !s.pendingParamsChange)
+//@   ensures (calls("muxerSegmenter.fmp4WriteSample") == 1 && callarg("muxerSegmenter.fmp4WriteSample", 0, 2) == 1 && callarg("muxerSegmenter.fmp4WriteSample", 0, 3) == 0) ==> !s.pendingParamsChange
+//@   ensures (calls("muxerSegmenter.fmp4WriteSample") == 1 && callarg("muxerSegmenter.fmp4WriteSample", 0, 2) == 1 && old(s.pendingParamsChange)) ==> callarg("muxerSegmenter.fmp4WriteSample", 0, 3) == 1
+//@   loop 1 invariant ri < len(au) && randomAccess == exists(i, 0 <= i && i <= ri && mod(au[i][0], 32) == 5)
+//@   loop 1 invariant nonIDRPresent == exists(i, 0 <= i && i <= ri && mod(au[i][0], 32) == 1)
+//@   loop 1 invariant old(s.pendingParamsChange) ==> s.pendingParamsChange
+//@   loop 1 invariant calls("muxerSegmenter.fmp4WriteSample") == 0 && track.firstRandomAccessReceived == old(track.firstRandomAccessReceived)
+//@   loop 1 invariant forall(i, (0 <= i && i < len(au)) ==> len(au[i]) >= 1)
+//@   atcall muxerSegmenter.fmp4WriteSample arg4.dts <= pts && arg4.ntp == ntp && arg4.PTSOffset == int32(pts - arg4.dts)
+//@   atcall muxerSegmenter.fmp4WriteSample old(track.firstRandomAccessReceived) || arg2
+//@   reachable result == nil && calls("muxerSegmenter.fmp4WriteSample") == 1
+//@ end
+
+//@ func muxerSegmenter.writeH265
+//@   props C01 C02
+//@   role writer
+//@   nocallpre
+//@   requires s.variant != MuxerVariantMPEGTS && fmp4Pre(s, track) && is(track.Codec, *codecs.H265) && ref(track.Codec) != 0
+//@   requires forall(i, (0 <= i && i < len(au)) ==> len(au[i]) >= 1)
+//@   requires track.firstRandomAccessReceived ==> track.h265DTSExtractor != nil
+//@   modifies *
+//@   ensures (!old(track.firstRandomAccessReceived) && !exists(i, 0 <= i && i < len(au) && mod(div(au[i][0], 2), 64) >= 19 && mod(div(au[i][0], 2), 64) <= 21)) ==>
+//@        (result == nil && calls("muxerSegmenter.fmp4WriteSample") == 0 && !track.firstRandomAccessReceived)
+//@   ensures calls("muxerSegmenter.fmp4WriteSample") <= 1
+//@   ensures calls("muxerSegmenter.fmp4WriteSample") == 1 ==> (callarg("muxerSegmenter.fmp4WriteSample", 0, 1) == track
+//@        && (callarg("muxerSegmenter.fmp4WriteSample", 0, 2) == 1) == exists(i, 0 <= i && i < len(au) && mod(div(au[i][0], 2), 64) >= 19 && mod(div(au[i][0], 2), 64) <= 21))
+//@   ensures (calls("muxerSegmenter.fmp4WriteSample") == 1 && callarg("muxerSegmenter.fmp4WriteSample", 0, 3) == 1) ==> (callarg("muxerSegmenter.fmp4WriteSample", 0, 2) == 1 && !s.pendingParamsChange)
+//@   ensures (calls("muxerSegmenter.fmp4WriteSample") == 1 && callarg("muxerSegmenter.fmp4WriteSample", 0, 2) == 1 && old(s.pendingParamsChange)) ==> callarg("muxerSegmenter.fmp4WriteSample", 0, 3) == 1
+//@   loop 1 invariant ri < len(au) && randomAccess == exists(i, 0 <= i && i <= ri && mod(div(au[i][0], 2), 64) >= 19 && mod(div(au[i][0], 2), 64) <= 21)
+//@   loop 1 invariant old(s.pendingParamsChange) ==> s.pendingParamsChange
+//@   loop 1 invariant calls("muxerSegmenter.fmp4WriteSample") == 0 && track.firstRandomAccessReceived == old(track.firstRandomAccessReceived)
+//@   loop 1 invariant forall(i, (0 <= i && i < len(au)) ==> len(au[i]) >= 1)
+//@   atcall muxerSegmenter.fmp4WriteSample arg4.dts <= pts && arg4.ntp == ntp && arg4.PTSOffset == int32(pts - arg4.dts)
+//@   atcall muxerSegmenter.fmp4WriteSample old(track.firstRandomAccessReceived) || arg2
+//@   reachable result == nil && calls("muxerSegmenter.fmp4WriteSample") == 1
+//@ end
+
+//@ func muxerSegmenter.writeVP9
+//@   props C01 C02
+//@   role writer
+//@   nocallpre
+//@   requires fmp4Pre(s, track) && is(track.Codec, *codecs.VP9) && ref(track.Codec) != 0
+//@   modifies *
+//@   ensures calls("muxerSegmenter.fmp4WriteSample") <= 1
+//@   ensures (calls("muxerSegmenter.fmp4WriteSample") == 1 && callarg("muxerSegmenter.fmp4WriteSample", 0, 3) == 1) ==> (callarg("muxerSegmenter.fmp4WriteSample", 0, 2) == 1 && !s.pendingParamsChange)
+//@   ensures (calls("muxerSegmenter.fmp4WriteSample") == 1 && callarg("muxerSegmenter.fmp4WriteSample", 0, 2) == 1 && old(s.pendingParamsChange)) ==> callarg("muxerSegmenter.fmp4WriteSample", 0, 3) == 1
+//@   ensures (result == nil && calls("muxerSegmenter.fmp4WriteSample") == 0) ==> !old(track.firstRandomAccessReceived)
+//@   atcall muxerSegmenter.fmp4WriteSample arg1 == track && arg2 == !h.NonKeyFrame && arg4.IsNonSyncSample == h.NonKeyFrame && arg4.Payload == frame && arg4.dts == pts && arg4.ntp == ntp && arg4.PTSOffset == 0
+//@   atcall muxerSegmenter.fmp4WriteSample old(track.firstRandomAccessReceived) || arg2
+//@   atcall muxerSegmenter.fmp4WriteSample track.firstRandomAccessReceived
+//@   reachable result == nil && calls("muxerSegmenter.fmp4WriteSample") == 1
+//@ end
+
+//@ func muxerSegmenter.writeAV1
+//@   props C01 C02
+//@   role writer
+//@   nocallpre
+//@   requires fmp4Pre(s, track) && is(track.Codec, *codecs.AV1) && ref(track.Codec) != 0
+//@   modifies *
+//@   ensures calls("muxerSegmenter.fmp4WriteSample") <= 1
+//@   ensures (calls("muxerSegmenter.fmp4WriteSample") == 1 && callarg("muxerSegmenter.fmp4WriteSample", 0, 3) == 1) ==> (callarg("muxerSegmenter.fmp4WriteSample", 0, 2) == 1 && !s.pendingParamsChange)
+//@   ensures (calls("muxerSegmenter.fmp4WriteSample") == 1 && callarg("muxerSegmenter.fmp4WriteSample", 0, 2) == 1 && old(s.pendingParamsChange)) ==> callarg("muxerSegmenter.fmp4WriteSample", 0, 3) == 1
+//@   loop 1 invariant ri < len(tu) && (old(s.pendingParamsChange) ==> s.pendingParamsChange) && calls("muxerSegmenter.fmp4WriteSample") == 0
+//@   loop 1 invariant track.firstRandomAccessReceived == old(track.firstRandomAccessReceived)
+//@   atcall muxerSegmenter.fmp4WriteSample arg1 == track && arg4.dts == pts && arg4.ntp == ntp && arg4.PTSOffset == 0
+//@   atcall muxerSegmenter.fmp4WriteSample old(track.firstRandomAccessReceived) || arg2
+//@   atcall muxerSegmenter.fmp4WriteSample track.firstRandomAccessReceived
+//@   reachable result == nil && calls("muxerSegmenter.fmp4WriteSample") == 1
+//@ end
